@@ -16,7 +16,9 @@ RULE = ("enums with 1-8 variants x kinds; 0-6 properties per variant spread over
         "all three getters. non-trivial = distinct (definition, value, key)")
 ASSUMPTIONS = ["property values are string, integer (unsuffixed, within i64) and boolean literals"]
 
-KEYS = ["color", "Color", "col", "colors", "type", "fn", "match", "r#raw", "weight", "k2", "_under", "a"]
+KEYS = ["color", "Color", "col", "colors", "type", "fn", "match", "r#raw", "weight", "k2", "_under", "a",
+        # keys of 63 / 64 / 69 / 128 bytes (length-indexed shortcuts), and keys spelled like strum's own options
+        "k" * 63, "key_" + "x" * 60, "long_key_" + "y" * 60, "z" * 128, "disabled", "default", "serialize", "props", "message"]
 INTS = [0, 1, -1, 42, -9223372036854775808, 9223372036854775807, 255, -255]
 STRS = ["red", "", "with \"quotes\"", "é ü", "{braces}", "line\nbreak", "true", "42"]
 
